@@ -469,5 +469,5 @@ def run(ctx):
     ns = core.NPROC
     ctx.parallel(_enum_worker, [(k, ns) for k in range(ns)])
     ctx.exhaustive["scope subsets x roles (argument, back-quoted, callee, dotted) x env depth 0..3"] = {"complete": True}
-    per = 150 if ctx.tier == "quick" else 1500
+    per = 150 if ctx.tier == "quick" else 6000
     ctx.parallel(_multi_worker, [(k, per) for k in range(ns)])
